@@ -13,11 +13,26 @@
      ideal md bs n k                    the first k steps of the execution that is never interrupted
      entry_ok e                         the order names every file kind and names the marker last
 
+     invocation md fixed bs n f sched   ONE invocation of the script = the while-loop of main(): calls of
+                                        run_next_* are repeated while the previous one returned True
+                                        (call_returns: retrospective True after a launch / False when the
+                                        last completed step's metadata says no plates remain; prospective
+                                        current_plate_idx < batch_size - 1); r_end says how it ended
+     op_screen md bs f                  index of the screen file the operator passes as --screen to an
+                                        invocation started on tree f (prospective: one new file per batch)
+     script_session md fixed bs n f s   script_run cut into invocations; every record keeps i_screen, the
+                                        operator screen that invocation was given (SInput in its launches)
+     launches_of recs                   every launch of a session as (step, operator screen, command)
+     ideal_stamped md bs c              the c-th launch of the never-interrupted execution: step (c/bs, c mod bs),
+                                        operator screen c/bs (prospective) resp. 0, command ideal_launch md bs c
+     launch_key g                       Some (step, command, pipeline exit status = 0) of a launch, None otherwise
+
    The property as written (no hypothesis on the order, fixed = false) is FALSE of the faithful model:
    see the two `_refuted` theorems at the end; both witnesses are replayed on the real script by
    harness/c19.py.  It is proved below under exactly the two hypotheses that exclude them. *)
 From Coq Require Import ZArith List Bool.
-From Batchie Require Import Model.Orchestrate Proofs.C19Base Proofs.C19Canon Proofs.C19Step Proofs.C19Main.
+From Batchie Require Import Model.Orchestrate Proofs.C19Base Proofs.C19Canon Proofs.C19Step Proofs.C19Main
+  Proofs.C19Invocation Proofs.C19InvocationThm.
 Import ListNotations.
 
 (* For EVERY crash schedule (any number of crashes, at any event of any call), batch size, number of
@@ -101,6 +116,111 @@ Theorem C19_step_of_successor : forall (bs n c : nat), (1 <= bs)%nat ->
 Proof. exact step_of_successor. Qed.
 Print Assumptions C19_step_of_successor.
 
+(* ---- the invocation boundary: when main() stops, and which operator screen each launch reads ---- *)
+
+(* a session is the script_run of the same schedule cut where main() returns or dies: the theorems above
+   speak about sessions (same final tree, same calls in the same order) *)
+Theorem C19_session_is_script_run : forall md fixed bs n f sched,
+  fst (script_session md fixed bs n f sched) = fst (script_run md fixed bs n f sched) /\
+  concat (map i_calls (snd (script_session md fixed bs n f sched))) = snd (script_run md fixed bs n f sched).
+Proof. exact session_is_script_run. Qed.
+Print Assumptions C19_session_is_script_run.
+
+(* For EVERY crash schedule: each launch ever made - step s, by an invocation that was given operator screen
+   r, command l - is a launch of the never-interrupted execution: s = step c, l = its command, and r = the
+   screen the never-interrupted execution runs step c with (prospective: step (i, j) always reads screen i).
+   Prospective: all launches of one invocation belong to the iteration whose screen the operator supplied,
+   i.e. the iteration that was current when the invocation started - an invocation never crosses a batch
+   boundary. *)
+Theorem C19_invocation_never_crosses_batch : forall (bs n : nat) fixed,
+  (1 <= bs)%nat -> (1 <= n)%nat -> fixed = true \/ bs = 1%nat ->
+  forall md sched, Forall (fun e => entry_ok e = true) sched ->
+  let recs := snd (script_session md fixed (Z.of_nat bs) n [] sched) in
+  (forall s r l, In (s, r, l) (launches_of recs) -> exists c, (s, r, l) = ideal_stamped md bs c) /\
+  (md = Prosp ->
+   Forall (fun rc => forall s l ps ok, In (GLaunch s l ps ok) (i_calls rc) -> fst s = i_screen rc) recs).
+Proof. exact invocation_stays_in_batch. Qed.
+Print Assumptions C19_invocation_never_crosses_batch.
+
+(* on every reachable tree the operator's screen index is the iteration the script is about to work on
+   (or the iteration of the directory it asks the operator to remove) *)
+Theorem C19_operator_screen_is_current_iteration : forall (bs n : nat) fixed,
+  (1 <= bs)%nat -> (1 <= n)%nat -> fixed = true \/ bs = 1%nat ->
+  forall md sched, Forall (fun e => entry_ok e = true) sched ->
+  let f := fst (script_run md fixed (Z.of_nat bs) n [] sched) in
+  match examine fixed (Z.of_nat bs) f with
+  | XOk (i, _, _, _) => op_screen Prosp (Z.of_nat bs) f = i
+  | XNamed _ s => op_screen Prosp (Z.of_nat bs) f = fst s
+  end.
+Proof. exact operator_screen_is_current_iteration. Qed.
+Print Assumptions C19_operator_screen_is_current_iteration.
+
+(* the never-interrupted prospective execution of q batches: q invocations; invocation k is given screen k,
+   makes exactly bs calls and returns; its launches are ideal_stamped 0 .. q*bs-1 *)
+Theorem C19_uninterrupted_prospective_session : forall (bs n : nat) fixed,
+  (1 <= bs)%nat -> (1 <= n)%nat -> fixed = true \/ bs = 1%nat ->
+  forall e q, entry_ok e = true -> (4 + length (e_order e) <= e_k e)%nat -> (bs <= n)%nat ->
+  let sr := script_session Prosp fixed (Z.of_nat bs) n [] (repeat e (q * bs)) in
+  completed (fst sr) = ideal Prosp bs n (q * bs)
+  /\ launches_of (snd sr) = map (ideal_stamped Prosp bs) (seq 0 (q * bs))
+  /\ map i_screen (snd sr) = map Z.of_nat (seq 0 q)
+  /\ Forall (fun rc => length (i_calls rc) = bs /\ i_end rc = IReturned) (snd sr).
+Proof. exact uninterrupted_session_prosp. Qed.
+Print Assumptions C19_uninterrupted_prospective_session.
+
+(* prospective: from ANY reachable tree with c completed steps on which the script does not ask for a
+   directory to be removed, an invocation that is not interrupted performs exactly bs - c mod bs calls -
+   bs from a batch boundary, bs - j after an interruption at plate j - all successful launches of the steps
+   c .. up to the end of the current batch, then returns; the remaining schedule is untouched *)
+Theorem C19_invocation_finishes_batch_and_stops : forall (bs n : nat) fixed,
+  (1 <= bs)%nat -> (1 <= n)%nat -> fixed = true \/ bs = 1%nat ->
+  forall sched0 e rest, Forall (fun e => entry_ok e = true) sched0 ->
+  entry_ok e = true -> (4 + length (e_order e) <= e_k e)%nat -> (bs <= n)%nat ->
+  let f := fst (script_run Prosp fixed (Z.of_nat bs) n [] sched0) in
+  let c := length (completed f) in
+  let m := (bs - c mod bs)%nat in
+  (forall w s, plan_of Prosp fixed (Z.of_nat bs) f <> PNamed w s) ->
+  let r := invocation Prosp fixed (Z.of_nat bs) n f (repeat e m ++ rest) in
+  r_end r = IReturned /\ r_rest r = rest
+  /\ map launch_key (r_calls r) = map (ideal_key Prosp bs) (seq c m)
+  /\ completed (r_fs r) = ideal Prosp bs n (c + m).
+Proof. exact invocation_finishes_batch. Qed.
+Print Assumptions C19_invocation_finishes_batch_and_stops.
+
+(* retrospective, ANY tree: a call returns False exactly when the metadata of the last completed step, as
+   examine reads it back, says that no unobserved plates remain *)
+Theorem C19_retro_call_returns_false_iff_no_plates_remain : forall fixed bs n f e,
+  call_returns Retro bs (snd (attempt Retro fixed bs n f e)) = Some false <->
+  exists i j m scr, examine fixed bs f = XOk (i, j, Some m, scr) /\ (m <= 0)%Z.
+Proof. exact retro_returns_false_iff. Qed.
+Print Assumptions C19_retro_call_returns_false_iff_no_plates_remain.
+
+(* retrospective, reachable trees: an invocation that returns has completed all n steps of the never-interrupted
+   run (never before), every call before the returning one was a successful launch; and once all n steps are
+   complete every invocation is a single call that returns and changes nothing *)
+Theorem C19_retro_invocation_stops_iff_finished : forall (bs n : nat) fixed,
+  (1 <= bs)%nat -> (1 <= n)%nat -> fixed = true \/ bs = 1%nat ->
+  forall sched0 sched, Forall (fun e => entry_ok e = true) sched0 -> Forall (fun e => entry_ok e = true) sched ->
+  let f := fst (script_run Retro fixed (Z.of_nat bs) n [] sched0) in
+  let r := invocation Retro fixed (Z.of_nat bs) n f sched in
+  (r_end r = IReturned ->
+     completed (r_fs r) = crash_free Retro bs n /\
+     exists pre, r_calls r = pre ++ [GDone] /\ Forall (fun g => exists s l ps, g = GLaunch s l ps true) pre) /\
+  (completed f = crash_free Retro bs n -> sched <> [] ->
+     r_calls r = [GDone] /\ r_end r = IReturned /\ r_fs r = f).
+Proof. exact retro_invocation_stops. Qed.
+Print Assumptions C19_retro_invocation_stops_iff_finished.
+
+(* the never-interrupted retrospective invocation: n successful launches, then one call that returns False *)
+Theorem C19_uninterrupted_retrospective_invocation : forall (bs n : nat) fixed,
+  (1 <= bs)%nat -> (1 <= n)%nat -> fixed = true \/ bs = 1%nat ->
+  forall e e' rest, entry_ok e = true -> (4 + length (e_order e) <= e_k e)%nat ->
+  let r := invocation Retro fixed (Z.of_nat bs) n [] (repeat e n ++ e' :: rest) in
+  completed (r_fs r) = crash_free Retro bs n /\ r_end r = IReturned /\ r_rest r = rest
+  /\ map launch_key (r_calls r) = map (ideal_key Retro bs) (seq 0 n) ++ [None].
+Proof. exact uninterrupted_invocation_retro. Qed.
+Print Assumptions C19_uninterrupted_retrospective_invocation.
+
 (* ---- the unrestricted statement is false of the faithful model ---- *)
 
 (* (i) examine as it is today (fixed = false), batch size 2, 4 plates, marker last everywhere: a crash
@@ -150,3 +270,34 @@ Example C19_unrepaired_bs1 :
   completed (fst (script_run Retro false 1 3 [] [full; mke 2 all_kinds; full; mke 2 all_kinds; full; full]))
   = crash_free Retro 1 3.
 Proof. vm_compute. reflexivity. Qed.
+
+(* ---- non-vacuity, invocation level ---- *)
+(* prospective, batch size 3, 4 plates.  Invocation 0 (screen 0) completes (0,0) and is interrupted inside the
+   pipeline run of (0,1); invocation 1 (screen 0) is told to remove iter_0/plate_1; invocation 2 (screen 0)
+   runs exactly the 2 remaining steps (0,1), (0,2) and returns; invocation 3 is given screen 1 and runs (1,0),
+   (1,1) until the schedule ends. *)
+Example C19_session_after_crash_mid_batch :
+  let recs := snd (script_session Prosp true 3 4 [] [full; mke 5 all_kinds; full; full; full; full; full]) in
+  map i_screen recs = [0; 0; 0; 1]%Z /\
+  map (fun rc => length (i_calls rc)) recs = [2; 1; 2; 2]%nat /\
+  map i_end recs = [IRaised; IRaised; IReturned; IExhausted] /\
+  map (fun t => (fst (fst t), snd (fst t))) (launches_of recs)
+  = [((0, 0), 0); ((0, 1), 0); ((0, 1), 0); ((0, 2), 0); ((1, 0), 1); ((1, 1), 1)]%Z.
+Proof. vm_compute. repeat split; reflexivity. Qed.
+
+(* the hypothesis of C19_invocation_finishes_batch_and_stops is satisfiable in the middle of a batch, and the
+   conclusion is what the model computes: after a crash before the launch of plate 1 (and the operator's
+   removal of the directory) the rerun makes 3 - 1 = 2 calls *)
+Example C19_rerun_mid_batch_two_calls :
+  let f := fst (script_run Prosp true 3 4 [] [full; mke 3 all_kinds; full]) in
+  length (completed f) = 1%nat /\ plan_of Prosp true 3 f <> PNamed 1 (0, 1)%Z /\
+  let r := invocation Prosp true 3 4 f [full; full; full; full] in
+  length (r_calls r) = 2%nat /\ r_end r = IReturned /\ length (r_rest r) = 2%nat.
+Proof. vm_compute. repeat split; try reflexivity. discriminate. Qed.
+
+(* retrospective, batch size 2, 3 plates: one invocation makes 3 launches and a 4th call that returns *)
+Example C19_retro_invocation_returns :
+  let r := invocation Retro true 2 3 [] [full; full; full; full; full] in
+  map (call_returns Retro 2) (r_calls r) = [Some true; Some true; Some true; Some false] /\
+  r_end r = IReturned /\ length (r_rest r) = 1%nat.
+Proof. vm_compute. repeat split; reflexivity. Qed.
